@@ -1448,3 +1448,86 @@ F("C16", "SetWrapper.__le__ bound to a method of the store", "util.py",
     __le__ = issubset  # type: ignore
 
     def __str__(self) -> str:""", "R16.8")
+
+
+# ---------------------------------------------------------------------------
+# round 9: one fault (and where it makes sense a twin) per rule added after the ninth round
+F("C02", "writer masks the symbol value to 64 bits", "symbol.py",
+  """            proto_symbol.value = self.value""",
+  """            proto_symbol.value = self.value & 0xFFFFFFFFFFFFFFFF""", "R02.2")
+F("C04", "interval enters the store before it leaves its previous section", "section.py",
+  """        def add(self, v: ByteInterval) -> None:
+            if v._section is not None:
+                v._section.byte_intervals.discard(v)
+            self._node._index_add(v)
+            v._section = self._node
+            if self._node.ir is not None:
+                v._add_to_uuid_cache(self._node.ir._local_uuid_cache)
+            return super().add(v)""",
+  """        def add(self, v: ByteInterval) -> None:
+            super().add(v)
+            if v._section is not None:
+                v._section.byte_intervals.discard(v)
+            self._node._index_add(v)
+            v._section = self._node
+            if self._node.ir is not None:
+                v._add_to_uuid_cache(self._node.ir._local_uuid_cache)""", "R03.3")
+F("C05", "get_desired_range memoised", "util.py",
+  """def get_desired_range(addrs: typing.Union[int, range]) -> range:""",
+  """import functools
+
+
+@functools.lru_cache(maxsize=8)
+def get_desired_range(addrs: typing.Union[int, range]) -> range:""", "R05.7")
+F("C08", "StringCodec.encode converts its value with str()", "serialization.py",
+  """        encoded = val.encode("utf-8")""",
+  """        encoded = str(val).encode("utf-8")""", "R08.5")
+F("C09", "module tables resolve in the module, not the IR", "module.py",
+  """            AuxDataContainer._read_protobuf_aux_data(proto_module.aux_data, ir)""",
+  """            AuxDataContainer._read_protobuf_aux_data(proto_module.aux_data, m)""", "R09.4")
+F("C09", "deferred symbolic-expression pass only for modules with symbols", "module.py",
+  """        for section in m.sections:
+            for interval in section.byte_intervals:
+                interval._decode_symbolic_expressions(ir)""",
+  """        for section in (m.sections if m.symbols else ()):
+            for interval in section.byte_intervals:
+                if m.symbols:
+                    interval._decode_symbolic_expressions(ir)""", "R09.2")
+F("C11", "CFG.__bool__ counts vertices", "cfg.py",
+  """    def __len__(self) -> int:
+        return len(self._nxg.edges())""",
+  """    def __bool__(self) -> bool:
+        return self._nxg.number_of_nodes() != 0
+
+    def __len__(self) -> int:
+        return len(self._nxg.edges())""", "R11.3")
+T("C11", "CFG.__bool__ that says what len() says", "cfg.py",
+  """    def __len__(self) -> int:
+        return len(self._nxg.edges())""",
+  """    def __bool__(self) -> bool:
+        return len(self) != 0
+
+    def __len__(self) -> int:
+        return len(self._nxg.edges())""")
+F("C12", "collection asks its section for the extent in the middle of an edit", "section.py",
+  """            self._node._index_add(v)
+            v._section = self._node
+            if self._node.ir is not None:
+                v._add_to_uuid_cache(self._node.ir._local_uuid_cache)
+            return super().add(v)""",
+  """            self._node._index_add(v)
+            v._section = self._node
+            if self._node.size == 0:
+                pass
+            if self._node.ir is not None:
+                v._add_to_uuid_cache(self._node.ir._local_uuid_cache)
+            return super().add(v)""", "R12.6")
+F("C15", "name position accepts '>'", "serialization.py",
+  """            if first_token in {"<", ">", ","}:""",
+  """            if first_token in {"<", ","}:""", "R15.7")
+F("C16", "DictWrapper.clear rebinds the store", "util.py",
+  """class DictWrapper(typing.MutableMapping[K, V]):""",
+  """class DictWrapper(typing.MutableMapping[K, V]):
+    def clear(self) -> None:
+        self._data = {}
+""", "R16.7")
